@@ -71,7 +71,7 @@ Proof.
   intros. unfold expected_closes, default_close, filtered. cbn [snd].
   rewrite filter_map_flat, flat_map_filter. apply flat_map_ext. intros [i x]. cbn [fst snd].
   rewrite in_scope_filter_match. destruct (filter_match f i x); [|reflexivity].
-  unfold i_price. destruct (i_pos x) as [p|]; [|reflexivity]. destruct (i_last x) as [[t pr]|]; [|reflexivity].
+  destruct (i_pos x) as [p|]; [|reflexivity]. destruct (i_price x) as [pr|]; [|reflexivity].
   cbn. unfold close_order, opposite, flip_side. destruct (p_side p); reflexivity.
 Qed.
 
